@@ -15,7 +15,7 @@ import (
 func propC12() *fw.Prop {
 	return &fw.Prop{
 		ID: "C12", Level: "fault_enumeration",
-		Rule:        "(a) single-fault oracle: exactly one fault is planted into an otherwise succeeding generated script (hostile variable text per declared type, missing variable, unknown type, negative amount, mismatched asset, ill-typed operand, undeclared variable, unknown function, wrong arity, missing metadata, negative balance read, overdraft() without its flag, broken allotment sum, n/0 portion) and the outcome must be an error of the class that is a function of the fault — or, for faults at positions the execution need not reach, exactly the result of the unfaulted script; never a panic, never a result together with an error. (b) store-fault enumeration: the script is run fault-free counting its N store calls, then re-run N times with the k-th call (balances and metadata counted together) failing with a unique message, for EVERY k ≤ N: the run must fail, return the zero result, carry the message, and be classed as a store failure of the right kind. (c) crash/atomicity only: grammar-complete but ill-typed scripts with arbitrary variable text. Distinct = (fault kind, position class) and (script shape, k, call kind) pairs. Added later: the injected store error varies in shape (plain, wrapping with %w, a type with Unwrap, joined errors); portions above 100 % with 1..40 decimals; statement functions used as origins.",
+		Rule:        "(a) single-fault oracle: exactly one fault is planted into an otherwise succeeding generated script (hostile variable text per declared type, missing variable, unknown type, negative amount, mismatched asset, ill-typed operand, undeclared variable, unknown function, wrong arity, missing metadata, negative balance read, overdraft() without its flag, broken allotment sum, n/0 portion) and the outcome must be an error of the class that is a function of the fault — or, for faults at positions the execution need not reach, exactly the result of the unfaulted script; never a panic, never a result together with an error. (b) store-fault enumeration: the script is run fault-free counting its N store calls, then re-run N times with the k-th call (balances and metadata counted together) failing with a unique message, for EVERY k ≤ N: the run must fail, return the zero result, carry the message, and be classed as a store failure of the right kind. (c) crash/atomicity only: grammar-complete but ill-typed scripts with arbitrary variable text. Distinct = (fault kind, position class) and (script shape, k, call kind) pairs. Added later: the injected store error varies in shape (plain, wrapping with %w, a type with Unwrap, joined errors); portions above 100 % with 1..40 decimals; statement functions used as origins; portion literals with a zero denominator in 12 spellings (zero numerators included) at six positions.",
 		Assumptions: []string{trustedBase},
 		Require:     []string{"planted_faults_checked", "store_faults_enumerated", "store_faults_on_metadata_calls", "store_faults_on_balance_calls", "illtyped_runs"},
 		Run:         runC12,
